@@ -437,6 +437,14 @@ def h17_tolerance_as_equality(ctx, tk, rule, funcs):
                 ctx.violated(rule, f, "elements are merged / selected by exact comparison",
                              "`%s` selects positions: values that differ by less than the tolerance (1e-5 relative: 100000 and 100001) are treated as equal" % (c,),
                              node=c.node, engine="KB")
+        # np.allclose / np.isclose(...).all() as the answer of an equality method, or as a branch condition
+        for n, c in find_calls(fa, lambda c: np_call(c, {"allclose"}) or (np_call(c, {"all"}) and c.a[1] and np_call(c.a[1][0], {"isclose"}))):
+            is_eq = f.name in ("__eq__", "__ne__", "equals", "__contains__")
+            in_test = n.kind == "test"
+            if is_eq or in_test:
+                ctx.violated(rule, f, "equality is decided by exact comparison",
+                             "`%s` answers an equality question with a tolerance: values that differ by less than 1e-5 relative (2000100 and 2000101) compare equal" % (c,),
+                             node=c.node, engine="KB")
 
 
 def h18_cross_operand_store(ctx, tk, rule, funcs):
@@ -586,5 +594,7 @@ def generic(ctx, tk, rule, funcs, skip=()):
     h17_tolerance_as_equality(ctx, tk, rule + "/H17", fs)
     h18_cross_operand_store(ctx, tk, rule + "/H18", fs)
     h20_chunk_loop_drops_tail(ctx, tk, rule + "/H20", fs)
+    from . import wellformed as _W
+    _W.report_constant_truth(ctx, tk, rule, fs)
     # H19 (raw ufunc identity stored) depends on which ufunc the caller chose: it is applied by C05 only, where the
     # property quantifies over "any ufunc that has an identity"
